@@ -1083,6 +1083,10 @@ class Bus(ContainerBase, StoreClientMixin): # not a ContainerOperand
                 key=key,
                 )
 
+        if self._max_persist is not None:
+            # the sorted Series holds every Frame; derive from the cached Series in the sorted order so that max_persist holds
+            series = self._series.reindex(series.index)
+
         return self._derive(series)
 
 
